@@ -23,6 +23,7 @@ import (
 	"net/http"
 	"net/url"
 	"strings"
+	"sync"
 	"time"
 
 	corev3 "github.com/envoyproxy/go-control-plane/envoy/config/core/v3"
@@ -840,25 +841,40 @@ func getCookieName(config *oidcv1.OIDCConfig) string {
 	return defaultCookieName
 }
 
+// wellKnownMu serialises loadWellKnownConfig. A handler is built for every check from the shared OIDCConfig, so
+// several checks run this function concurrently while others already read the fields it fills in. Under the lock
+// the discovery cache is consulted and the configuration is written only when a value actually changes, i.e. by
+// the first check only; every later check passes through the same lock before it reads the configuration.
+var wellKnownMu sync.Mutex
+
 // loadWellKnownConfig loads the OIDC well-known configuration into the given OIDCConfig.
 func loadWellKnownConfig(client *http.Client, cfg *oidcv1.OIDCConfig) error {
 	if cfg.GetConfigurationUri() == "" {
 		return nil
 	}
 
+	wellKnownMu.Lock()
+	defer wellKnownMu.Unlock()
+
 	wellKnownConfig, err := oidc.GetWellKnownConfig(client, cfg.GetConfigurationUri())
 	if err != nil {
 		return err
 	}
 
-	cfg.AuthorizationUri = wellKnownConfig.AuthorizationEndpoint
-	cfg.TokenUri = wellKnownConfig.TokenEndpoint
+	if cfg.AuthorizationUri != wellKnownConfig.AuthorizationEndpoint {
+		cfg.AuthorizationUri = wellKnownConfig.AuthorizationEndpoint
+	}
+	if cfg.TokenUri != wellKnownConfig.TokenEndpoint {
+		cfg.TokenUri = wellKnownConfig.TokenEndpoint
+	}
 	if cfg.GetJwksFetcher() == nil {
 		cfg.JwksConfig = &oidcv1.OIDCConfig_JwksFetcher{
 			JwksFetcher: &oidcv1.OIDCConfig_JwksFetcherConfig{},
 		}
 	}
-	cfg.GetJwksFetcher().JwksUri = wellKnownConfig.JWKSURL
+	if cfg.GetJwksFetcher().JwksUri != wellKnownConfig.JWKSURL {
+		cfg.GetJwksFetcher().JwksUri = wellKnownConfig.JWKSURL
+	}
 
 	if cfg.GetLogout() != nil && cfg.GetLogout().GetRedirectUri() == "" {
 		if wellKnownConfig.EndSessionEndpoint == "" {
